@@ -734,3 +734,25 @@ Definition run_case (tis : list task_in) (fs : fsys) : list (err + task) * fsys 
   let ex := map expand_task tis in
   let '(fs', fin) := pipeline (rights ex) fs in
   (ex, fs', fin).
+
+(* several bulks, one after the other (each passes through all four stagers
+   before the next one starts) *)
+Fixpoint run_bulks (bs : list (list task_in)) (fs : fsys) : list (err + task) * fsys * list task :=
+  match bs with
+  | [] => ([], fs, [])
+  | b :: r =>
+      let '(ex, fs1, fin) := run_case b fs in
+      let '(ex', fs2, fin') := run_bulks r fs1 in
+      (ex ++ ex', fs2, fin ++ fin')
+  end.
+
+(* the content the last write to path q in a log left there *)
+Fixpoint last_write (q : path) (lg : wlog) : option content :=
+  match lg with
+  | [] => None
+  | (e, c) :: r =>
+      match last_write q r with
+      | Some c' => Some c'
+      | None => if path_eqb q e then Some c else None
+      end
+  end.
